@@ -711,6 +711,34 @@ for _k in ("tensor", "sptensor"):
     _mk8(_k)
 
 
+@entry("sptensor.__setitem__(offset region,sptensor rhs)", (1, 2, 3), inplace=True)
+def _(e):
+    e.shape = tuple(s + 2 for s in e.shape)
+    X = e.sptensor()
+    key = tuple([slice(1, s) for s in e.shape])
+    rhs = Env(e.rng, e.N)
+    rhs.shape = tuple(s - 1 for s in e.shape)
+    R = ttb.tensor(np.abs(rhs.arr()) + 0.5).to_sptensor()
+    return "sptensor.__setitem__", X.__setitem__, (key, R), {}
+
+
+@entry("sptensor.__setitem__(index lists,sptensor rhs)", (2, 3), inplace=True)
+def _(e):
+    e.shape = tuple(s + 2 for s in e.shape)
+    X = e.sptensor()
+    key = tuple([[s - 1, 1] for s in e.shape])
+    R = ttb.tensor(np.abs(gen.normals(e.rng, (2,) * e.N)) + 0.5).to_sptensor()
+    return "sptensor.__setitem__", X.__setitem__, (key, R), {}
+
+
+@entry("tensor.__setitem__(offset region,tensor rhs)", (1, 2, 3), inplace=True)
+def _(e):
+    e.shape = tuple(s + 2 for s in e.shape)
+    X = e.tensor()
+    key = tuple([slice(1, s) for s in e.shape])
+    return "tensor.__setitem__", X.__setitem__, (key, ttb.tensor(gen.normals(e.rng, tuple(s - 1 for s in e.shape)))), {}
+
+
 @entry("tensor.__setitem__(linear,negative)", ALLN, inplace=True)
 def _(e):
     X = e.tensor()
@@ -1022,6 +1050,29 @@ def _(e):
     from pyttb.gcp.fg_setup import Objectives
 
     return "gcp_opt", ttb.gcp_opt, (X, 2, Objectives.GAUSSIAN, Adam(max_iters=2, epoch_iters=2)), {"init": init, "printitn": 0}
+
+
+@entry("hosvd(ranks array with automatic entries)", (2, 3))
+def _(e):
+    e.shape = tuple(max(3, s) for s in e.shape)
+    ranks = np.array([2] * e.N)
+    ranks[int(e.rng.integers(0, e.N))] = 0
+    form = int(e.rng.integers(0, 3))
+    ranks = ranks if form == 0 else ranks.reshape(1, -1) if form == 1 else ranks.reshape(-1, 1)
+    return "hosvd", ttb.hosvd, (_algo_data(e, "tensor"), 0.05), {"verbosity": 0, "ranks": ranks, "dimorder": np.arange(e.N)[::-1].copy()}
+
+
+@entry("cp_als(option arrays)", (3,))
+def _(e):
+    e.shape = tuple(max(3, s) for s in e.shape)
+    return "cp_als", ttb.cp_als, (_algo_data(e, "tensor"), 2), {"init": e.ktensor(R=2, positive=True), "maxiters": 2, "printitn": 0,
+                                                                  "dimorder": np.array([2, 0, 1]), "optdims": np.array([0, 2])}
+
+
+@entry("tucker_als(option arrays)", (3,))
+def _(e):
+    e.shape = tuple(max(3, s) for s in e.shape)
+    return "tucker_als", ttb.tucker_als, (_algo_data(e, "tensor"), np.array([2, 1, 2])), {"maxiters": 2, "printitn": 0, "dimorder": np.array([2, 0, 1])}
 
 
 @entry("hosvd", (2, 3))
